@@ -466,6 +466,9 @@ mod e2e {
         // a link below the root that climbs one level and stays inside; a file of the same relative name sits above the served directory
         let _ = std::os::unix::fs::symlink("../a.txt", www.join("dir").join("up.txt"));
         std::fs::write(r.join("a.txt"), b"TOPSECRET-SAME-NAME-ABOVE-ROOT").unwrap();
+        // anything written to the system's temporary directory lands inside the watched tree
+        std::fs::create_dir_all(r.join("tmp")).unwrap();
+        std::env::set_var("TMPDIR", r.join("tmp"));
         std::env::set_current_dir(&www).unwrap();
     }
     pub fn corpus() -> Vec<(String, Vec<u8>)> {
@@ -1190,6 +1193,9 @@ mod fswatch {
         let _ = statics::search(1);
         for raw in [&b"\xff\xfeGET / HTTP/1.1\r\n\r\n"[..], &b"GET\r\n\r\n"[..], &b""[..], &b"POST /file-upload/initiate?name=a.txt&lastModified=1&size=2 HTTP/1.1\r\n\r\n"[..],
                     &b"POST /form-multipart-enctype-post-method HTTP/1.1\r\nContent-Type: multipart/form-data; boundary=xyz\r\nContent-Length: 80\r\n\r\n--xyz\r\nContent-Disposition: form-data; name=\"f\"; filename=\"index.html\"\r\n\r\nX\r\n--xyz--\r\n"[..],
+                    &b"POST /form-multipart-enctype-post-method HTTP/1.1\r\nContent-Type: multipart/form-data; boundary=xyz\r\nContent-Length: 70\r\n\r\n--xyz\r\nContent-Disposition: form-data; name=\"f\"; filename=\"a.txt\"\r\n\r\nunfinished body"[..],
+                    &b"GET /a.txt HTTP/1.1\r\nRange: items=0-1\r\n\r\n"[..], &b"GET /a.txt HTTP/1.1\r\nRange: Bytes=0-3\r\n\r\n"[..], &b"GET /a.txt HTTP/1.1\r\nRange: \r\n\r\n"[..],
+                    &b"POST /file-upload/initiate?name=page.html&lastModified=1&size=2 HTTP/1.1\r\n\r\n"[..], &b"POST /file-upload/initiate?name=dir/index.html&lastModified=1&size=2 HTTP/1.1\r\n\r\n"[..],
                     &b"PUT /a.txt HTTP/1.1\r\nContent-Length: 3\r\n\r\nabc"[..], &b"DELETE /a.txt HTTP/1.1\r\n\r\n"[..], &b"GET /nothing-here HTTP/1.1\r\n\r\n"[..]] {
             let _ = e2e::run(raw, 0, false);
         }
@@ -1246,6 +1252,9 @@ mod mpform {
             let mut hs = vec![("Content-Disposition".to_string(), format!("form-data; name=\"f{}\"", k))];
             if rng.below(2) == 0 { hs.push(("Content-Type".to_string(), "application/octet-stream".to_string())); }
             if rng.below(4) == 0 { hs.push(("X-Extra".to_string(), "a: b".to_string())); }
+            // an empty value, and a value with a C1 control character (U+0096): only ASCII control characters may be filtered
+            if rng.below(6) == 0 { hs.push(("X-Empty".to_string(), "".to_string())); }
+            if rng.below(6) == 0 { hs.push(("X-Note".to_string(), "report \u{96} final \u{e9}".to_string())); }
             parts.push((hs, bs[rng.below(bs.len() as u64) as usize].clone()));
         }
         let bd = boundaries();
